@@ -31,21 +31,22 @@ func init() { drivers["c01"] = c01 }
 type N = map[string]any
 
 type gen struct {
-	rng    *rand.Rand
-	mark   int
-	vctr   int
-	fctr   int
-	funcs  []fdef   // named functions available for calls
-	blocks []string // blocks of the current function activation that may be left from here
-	tags   []string // tags of enclosing tagbodies in the current function activation
-	bctr   int
-	maker  string          // name of a defined function that returns a closure counting up from its argument
-	ctl    bool            // profile: generate non-local exits, cleanups, errors
-	inline bool            // profile "defs": also inline lambda calls ((lambda (p) ...) arg)
-	rctr   int             // resources (mutexes, files) made so far in this program
-	noExit int             // > 0 while inside a position from which an exit is not generated (cleanup forms, binding init forms)
-	clash  bool            // profile "core": closures called where a variable of the captured name is bound (finding C01-F4)
-	feats  map[string]bool // features of the current program that open findings are about (stimulus field "features")
+	rng     *rand.Rand
+	mark    int
+	vctr    int
+	fctr    int
+	funcs   []fdef   // named functions available for calls
+	blocks  []string // blocks of the current function activation that may be left from here
+	tags    []string // tags of enclosing tagbodies in the current function activation
+	bctr    int
+	catcher string          // control profile: name of (defun c (f) (block bq (funcall f) 5)), a function with a block named bq of its own
+	maker   string          // name of a defined function that returns a closure counting up from its argument
+	ctl     bool            // profile: generate non-local exits, cleanups, errors
+	inline  bool            // profile "defs": also inline lambda calls ((lambda (p) ...) arg)
+	rctr    int             // resources (mutexes, files) made so far in this program
+	noExit  int             // > 0 while inside a position from which an exit is not generated (cleanup forms, binding init forms)
+	clash   bool            // profile "core": closures called where a variable of the captured name is bound (finding C01-F4)
+	feats   map[string]bool // features of the current program that open findings are about (stimulus field "features")
 }
 type fdef struct {
 	name  string
@@ -214,19 +215,29 @@ func (g *gen) num(d int, vars []string) N {
 		return N{"k": "cond", "cs": cs}
 	case ch < 10:
 		cs := []any{}
+		emptyClause := false
 		for i, n := 0, 1+g.rng.Intn(2); i < n; i++ {
 			keys := []any{I(g.rng.Intn(4))}
 			if g.one(2) {
 				keys = append(keys, I(g.rng.Intn(4)))
 			}
-			cs = append(cs, N{"keys": keys, "dflt": false, "body": g.body(d-1, vars)})
+			body := g.body(d-1, vars)
+			if g.one(5) {
+				body = []any{} // a clause without forms: when it is selected the value is nil and no other clause is looked at
+				emptyClause = true
+			}
+			cs = append(cs, N{"keys": keys, "dflt": false, "body": body})
 		}
 		if g.one(4) {
 			// (typecase e (type body) ...) / etypecase on an integer, a string, a symbol, nil or a list
 			tcs := []any{}
 			types := []string{"fixnum", "string", "null", "symbol", "list", "integer", "number"}
 			for i, n := 0, 1+g.rng.Intn(3); i < n; i++ {
-				tcs = append(tcs, N{"type": types[g.rng.Intn(len(types))], "body": g.body(d-1, vars)})
+				tbody := g.body(d-1, vars)
+				if g.one(6) {
+					tbody = []any{}
+				}
+				tcs = append(tcs, N{"type": types[g.rng.Intn(len(types))], "body": tbody})
 			}
 			strict := g.ctl && g.one(3)
 			if !strict && g.one(2) {
@@ -245,7 +256,11 @@ func (g *gen) num(d int, vars []string) N {
 			return g.orZero(N{"k": "ignerr", "body": []any{N{"k": "case", "strict": true, "e": g.m(N{"k": "lit", "v": I(g.rng.Intn(5))}), "cs": cs}}})
 		}
 		cs = append(cs, N{"keys": []any{}, "dflt": true, "body": g.body(d-1, vars)})
-		return N{"k": "case", "strict": false, "e": g.m(N{"k": "lit", "v": I(g.rng.Intn(4))}), "cs": cs}
+		cf := N{"k": "case", "strict": false, "e": g.m(N{"k": "lit", "v": I(g.rng.Intn(4))}), "cs": cs}
+		if emptyClause {
+			return g.orZero(cf)
+		}
+		return cf
 	case ch < 12:
 		return g.let(d, vars, g.one(2))
 	case ch < 13:
@@ -361,7 +376,37 @@ func (g *gen) psetqValue(e N) N {
 // the simple loop, recover, incf / decf, push / pop
 func (g *gen) more(d int, vars []string) N {
 	v := func(n string) N { return N{"k": "var", "n": n} }
-	switch g.rng.Intn(14) {
+	switch g.rng.Intn(16) {
+	case 14, 15:
+		// every / some / find-if / count-if / remove-if with a lambda over (list ...): the function is called until the answer is
+		// known; in the control profile the function sometimes leaves through an enclosing block instead of answering
+		p := g.fresh()
+		es := []any{}
+		for i := 1 + g.rng.Intn(3); i > 0; i-- {
+			es = append(es, g.noex(func() N { return g.num(d-2, vars) }))
+		}
+		op := []string{"every", "some", "findif", "countif", "removeif"}[g.rng.Intn(5)]
+		var test N = N{"k": "lt", "a": v(p), "b": lit(I(g.rng.Intn(8)))}
+		if op == "every" || op == "some" {
+			// the calls of every / some are defined (in order, until the answer is known) and observed; how often the other
+			// functions call their predicate is not defined: their predicates carry no mark
+			test = g.m(test)
+		}
+		if g.ctl && g.noExit == 0 && len(g.blocks) > 0 && g.one(3) {
+			name := g.blocks[g.rng.Intn(len(g.blocks))]
+			test = N{"k": "if", "c": test, "a": N{"k": "retfrom", "name": name, "e": v(p)}, "b": lit(nilV())}
+			if op != "some" {
+				g.feats["exit-through-predicate"] = true
+			}
+		}
+		call := N{"k": op, "f": N{"k": "lam", "ps": []any{p}, "body": []any{test}}, "l": N{"k": "list", "es": es}}
+		switch op {
+		case "every", "some":
+			return N{"k": "if", "c": g.m(call), "a": lit(I(1)), "b": lit(I(0))}
+		case "removeif":
+			return g.orZero(g.m(N{"k": "car", "a": call}))
+		}
+		return g.orZero(g.m(call))
 	case 0:
 		// (let ((a e1) (b e2)) (psetq a b b (+ a 1)) (- a b))
 		a, b := g.fresh(), g.fresh()
@@ -564,7 +609,11 @@ func (g *gen) leaf(vars []string) N {
 func (g *gen) closure(d int, vars []string) N {
 	p, c, f := g.fresh(), g.fresh(), g.fresh()
 	savedB, savedT := g.blocks, g.tags
-	g.blocks, g.tags = nil, nil
+	if !g.ctl || g.one(2) {
+		// (otherwise the body of the lambda may leave through a block or to a tag of the place it is written in: the
+		// lambda is called right there, while they are active)
+		g.blocks, g.tags = nil, nil
+	}
 	inner := append(append([]string{}, vars...), c, p)
 	var lb []any
 	if g.one(2) {
@@ -597,7 +646,9 @@ func (g *gen) closure(d int, vars []string) N {
 func (g *gen) mapcar(d int, vars []string) N {
 	p := g.fresh()
 	savedB, savedT := g.blocks, g.tags
-	g.blocks, g.tags = nil, nil
+	if !g.ctl || g.one(2) {
+		g.blocks, g.tags = nil, nil
+	}
 	lb := g.num(d-2, append(append([]string{}, vars...), p))
 	g.blocks, g.tags = savedB, savedT
 	es := []any{}
@@ -683,6 +734,13 @@ func (g *gen) loop(d int, vars []string) N {
 
 // control forms (C07): block with exits, unwind-protect with cleanup marks, tagbody, ignore-errors
 func (g *gen) control(d int, vars []string) N {
+	if g.catcher != "" && g.one(12) {
+		// (block bq (c (lambda () (return-from bq 1))) 2): the lambda leaves the block it is written in, not the block of the same
+		// name inside the function that calls it (open finding C07-F11 is about this shape)
+		g.feats["block-name-clash"] = true
+		lam := N{"k": "lam", "ps": []any{}, "body": []any{N{"k": "retfrom", "name": "bq", "e": g.m(g.num(d-2, vars))}}}
+		return N{"k": "block", "name": "bq", "body": []any{g.m(N{"k": "call", "f": g.catcher, "args": []any{lam}}), g.m(lit(I(2)))}}
+	}
 	switch g.rng.Intn(5) {
 	case 0, 1:
 		g.bctr++
@@ -957,8 +1015,10 @@ func render(n N) string {
 		return fmt.Sprintf("(%s %s%s)", name, render(n["f"].(N)), rlist(n["args"].([]any)))
 	case "call":
 		return fmt.Sprintf("(%s%s)", n["f"], rlist(n["args"].([]any)))
-	case "mapcar", "mapc", "mapcan", "maplist":
+	case "mapcar", "mapc", "mapcan", "maplist", "every", "some":
 		return fmt.Sprintf("(%s %s %s)", n["k"], render(n["f"].(N)), render(n["l"].(N)))
+	case "findif", "countif", "removeif":
+		return fmt.Sprintf("(%s-if %s %s)", strings.TrimSuffix(n["k"].(string), "if"), render(n["f"].(N)), render(n["l"].(N)))
 	case "psetq":
 		var b strings.Builder
 		b.WriteString("(psetq")
@@ -1160,7 +1220,7 @@ func c01Gen(args []string) {
 	enc := json.NewEncoder(w)
 	g := &gen{rng: rand.New(rand.NewSource(int64(seed))), ctl: profile == "ctl", inline: profile == "defs", clash: profile == "core"}
 	for t := 1; t <= ntr; t++ {
-		g.mark, g.funcs, g.blocks, g.tags, g.maker = 0, nil, nil, nil, ""
+		g.mark, g.funcs, g.blocks, g.tags, g.maker, g.catcher = 0, nil, nil, nil, "", ""
 		g.feats = map[string]bool{}
 		var defs []any
 		var defsrc []string
@@ -1262,6 +1322,15 @@ func c01Gen(args []string) {
 			defs = append(defs, N{"name": name, "ps": []any{p}, "body": []any{lam}})
 			defsrc = append(defsrc, fmt.Sprintf("(defun %s (%s) %s)", name, p, render(lam)))
 			g.maker = name
+		}
+		if g.ctl {
+			// (defun c (f) (block bq (funcall f) 5))
+			g.fctr++
+			g.catcher = fmt.Sprintf("cf%d-%d", seed, g.fctr)
+			fp := g.fresh()
+			body := []any{N{"k": "block", "name": "bq", "body": []any{g.m(N{"k": "fcall", "f": N{"k": "var", "n": fp}, "args": []any{}, "spread": false}), g.m(lit(I(5)))}}}
+			defs = append(defs, N{"name": g.catcher, "ps": []any{fp}, "body": body})
+			defsrc = append(defsrc, fmt.Sprintf("(defun %s (%s)%s)", g.catcher, fp, rlist(body)))
 		}
 		if g.ctl {
 			// (defun r (n) (block b (unwind-protect (return-from b n) (mark) (when (< 0 n) (r (- n 1))))))
